@@ -25,5 +25,8 @@ CHECK = {
                  "budget_s": {"quick": 50, "thorough": 420}},
         "crash": {"pkg": "middleware/resolver", "run": "TestVerifC09Crash", "harness": _H, "rewrite": _RW,
                   "budget_s": {"quick": 30, "thorough": 280}},
+        # the history search in a universe whose K1/K2 key tags do not move by exactly 128 under the REVOKE bit
+        "carry": {"pkg": "middleware/resolver", "run": "TestVerifC09Carry", "harness": _H, "rewrite": _RW,
+                  "budget_s": {"quick": 30, "thorough": 200}},
     },
 }
